@@ -24,8 +24,10 @@ PROPS = {
     'C07': dict(facts=['Maps', 'Shared'], keys=['C07rep', 'C07input', 'C07fresh'], tkeys=['T:phase2-ns', 'T:phase4-sinkcoloring'], suites=[('e2e', 2500, 60000)],
                 fresh_process=True, partial=[]),
     'C08': dict(facts=['Ids'], keys=['C08'], tkeys=['T:pre', 'T:break', 'T:phase4-ns', 'T:output'], suites=[('rename', 2000, 50000), ('e2e', 600, 10000)], partial=[]),
-    'C09': dict(facts=['Shared'], keys=['C09', 'C09side'], tkeys=[], suites=[('union', 1500, 40000)], partial=[]),
-    'C10': dict(facts=[], keys=['C10'], tkeys=['K:ns-certificate', 'T:layers', 'T:phase2-ns', 'T:ns-pivots'], suites=[('c10', 4000, 80000)], partial=[]),
+    'C09': dict(facts=['Shared'], keys=['C09', 'C09side'],
+                tkeys=['T:pre', 'T:output', 'T:phase5', 'T:post', 'T:phase2-ns', 'T:ns-pivots'],
+                suites=[('union', 1500, 40000), ('union-dec', 600, 15000), ('e2e', 800, 10000)], partial=[]),
+    'C10': dict(facts=[], keys=['C10'], tkeys=['K:ns-certificate', 'T:layers', 'T:phase2-ns', 'T:ns-pivots'], suites=[('c10', 4000, 80000), ('c10-big', 12, 200)], partial=[]),
     'C11': dict(facts=[], keys=['C11'], tkeys=['T:phase2-longestpath', 'T:layers'], suites=[('c11', 2000, 50000)], partial=[]),
     'C12': dict(facts=[], keys=['C12'], tkeys=['T:crossings', 'K:ordered', 'T:break', 'T:phase4-sinkcoloring', 'T:phase4-valign', 'T:phase4-packright', 'T:phase5', 'T:output', 'T:phase4-ns'], suites=[('c12', 2000, 50000), ('c12-deep', 6, 60)], partial=[]),
     'C13': dict(facts=[], keys=['C13'], tkeys=['T:crossings', 'K:ordered'], suites=[('c13', 2000, 50000)], partial=[]),
